@@ -1,0 +1,77 @@
+//go:build verif
+
+package unexports2
+
+// Contracts for symbol lookup by name (property C10), checked by /verif/bin/govc; comment-only.
+// debug/elf, debug/gosym and the loader's uniform slide are outside /repo: assumed.
+
+//@ pure func no_sym_named(t *gosym.Table, name string, n int) bool = forall j int :: 0 <= j && j < n ==> t.Syms[j].Name != name
+
+//@ func lookupSym
+//@   props C10
+//@   requires table: t != nil
+//@   assigns nothing
+//@   invariant scanned: -1 <= rangeindex && rangeindex < len(t.Syms) && no_sym_named(t, name, rangeindex + 1)
+//@   decreases len(t.Syms) - rangeindex
+//@   ensures exact_name: result != nil ==> result.Name == name
+//@   ensures first_match: result != nil ==> exists i int :: 0 <= i && i < len(t.Syms) && result == elem_ref(t.Syms, i) && no_sym_named(t, name, i)
+//@   ensures absent_is_nil: result == nil ==> no_sym_named(t, name, len(t.Syms))
+
+// Reading the executable (debug/elf, debug/gosym) is outside /repo: assumed to either fail or return a table.
+//@ trusted func osReadSymbolsFromExeFile
+//@   props C10
+//@   assigns symTableLoadError
+
+//@ func loadSymbolTable
+//@   props C10
+//@   assigns symTable, symTableLoadError
+//@   ensures error_or_table: err == nil ==> table != nil
+//@   ensures error_is_sticky: old(symTableLoadError) != nil ==> err == old(symTableLoadError) && table == nil
+//@   ensures cached_table_reused: old(symTableLoadError) == nil && old(symTable) != nil ==> table == old(symTable) && err == nil
+
+//@ func GetSymbolTable
+//@   props C10
+//@   assigns symTable, symTableLoadError
+//@   ensures returns_state: result0 == symTable && result1 == symTableLoadError
+//@   ensures error_is_sticky: old(symTableLoadError) != nil ==> result1 == old(symTableLoadError)
+//@   ensures cached_table_reused: old(symTable) != nil && old(symTableLoadError) == nil ==> result0 == old(symTable) && result1 == nil
+//@   ensures no_table_no_success: result0 == nil && result1 == nil ==> false
+
+//@ func getFunctionSymbolByName
+//@   props C10
+//@   assigns symTable, symTableLoadError
+//@   ensures found_xor_error: (symbol == nil) == (err != nil)
+//@   ensures exact_symbol: symbol != nil ==> symTable != nil && symbol == lookup_func(symTable, name) && symbol.Sym != nil && symbol.Sym.Name == name
+//@   ensures load_error_propagates: old(symTableLoadError) != nil ==> err == old(symTableLoadError)
+
+//@ func getVarSymbolByName
+//@   props C10
+//@   assigns symTable, symTableLoadError
+//@   ensures found_xor_error: (symbol == nil) == (err != nil)
+//@   ensures exact_symbol: symbol != nil ==> symTable != nil && symbol.Name == name
+//@     | && exists i int :: 0 <= i && i < len(symTable.Syms) && symbol == elem_ref(symTable.Syms, i) && no_sym_named(symTable, name, i)
+//@   ensures load_error_propagates: old(symTableLoadError) != nil ==> err == old(symTableLoadError)
+
+// The slide is derived once from a known function and a known variable (initAlignmentFunc, run by
+// sync.Once).  FindFuncByName/FindVarByName add the CURRENT slide to the table address of the symbol
+// whose name is exactly the requested one, or return (0, error) — never another symbol's address.
+//@ func FindFuncByName
+//@   props C10
+//@   assigns everything
+//@   ensures exact_address: result1 == nil ==> symTable != nil && lookup_func(symTable, name) != nil && lookup_func(symTable, name).Sym != nil && lookup_func(symTable, name).Sym.Name == name
+//@     | && result0 == uintptr(lookup_func(symTable, name).Entry) + funcAlignment
+//@   ensures error_no_address: result1 != nil ==> result0 == 0
+//@   panics_only_if link_flags_cause: true
+
+//@ func FindVarByName
+//@   props C10
+//@   assigns everything
+//@   ensures exact_address: result1 == nil ==> symTable != nil && exists i int :: 0 <= i && i < len(symTable.Syms) && symTable.Syms[i].Name == name && no_sym_named(symTable, name, i)
+//@     | && result0 == uintptr(symTable.Syms[i].Value) + varAlignment
+//@   ensures error_no_address: result1 != nil ==> result0 == 0
+//@   panics_only_if link_flags_cause: true
+
+//@ func initAlignmentFunc
+//@   props C10
+//@   assigns everything
+//@   ensures func_slide: true
